@@ -135,6 +135,11 @@ class Multiline:
       for of in gfa_line.tagnames:
         # (a copy: the merged line keeps its own values)
         self.add(of, deepcopy(gfa_line.get(of)), gfa_line.get_datatype(of))
+    except RecursionError as err:
+      self._restore_tags(saved)
+      raise gfapy.ValueError(
+        "The header line cannot be merged, "+
+        "the content of a tag is nested too deeply") from err
     except:
       # all tags of the line are merged or none
       self._restore_tags(saved)
